@@ -3000,11 +3000,12 @@ CALSCALE:GREGORIAN\n";
 	return;
 }
 
-void
+int
 echs_icalify_fini(int whither)
 {
 	static const char ftr[] = "\
 END:VCALENDAR\n";
+	int rc;
 
 	/* tell the bufferer we want to write to WHITHER */
 	fdbang(whither);
@@ -3012,7 +3013,10 @@ END:VCALENDAR\n";
 	fdwrite(ftr, strlenof(ftr));
 	/* that's the last thing in line, just send it off */
 	fdflush();
-	return;
+	/* report (and forget) write errors since the last fini */
+	rc = -fd_aux.err;
+	fd_aux.err = 0;
+	return rc;
 }
 
 /* evical.c ends here */
